@@ -217,61 +217,117 @@ def np_weights(weighting, cw):
 
 
 # ---------------------------------------------------------------------------------------------- histories
-# A history is {"ops": [op, ...], "final": "pw" | "wp" | "p" | "w"}.  ops (the prefix, NOT judged):
+# A history is {"ops": [op, ...], "final": "<letters>"}.  ops (the prefix, NOT judged):
 #   {"op": "new", "rows": rows | "case", "weighting": str | "case", "cw": list | None, "fit": bool}
 #        fit=True: Calibration.from_points, fit=False: the constructor with a stored line and statistics
 #   {"op": "points", "rows": rows | "case"}         cal.points = ...
 #   {"op": "weights", "weighting": str | "case", "cw": list | None}    cal.weights = ...
 #   {"op": "fit"}                                   cal.update_linreg()
-# "case" stands for the case's own rows / its weighting together with its custom vector.  final (judged): the
-# case's points and weighting are assigned through the setters in the given order ("p"/"w": only that one, the
-# other already holds the case's value) and update_linreg() is called.
-FINALS = ("pw", "wp", "p", "w")
+#   {"op": "roundtrip", "pad": k | None}            cal = Calibration.from_array(cal.to_array(size = n + k | None))
+# "case" stands for the case's own rows / its weighting together with its custom vector.  final (judged): the case's
+# points and weighting are brought onto the object, one letter per step, then update_linreg() is called:
+#   p  cal.points = <case points>                 P  cal.points[...] = <case points>   (edited in place, same length)
+#   w  cal.weights = <case weighting / vector>    W  cal.weights[...] = <case vector>  (custom vector edited in place)
+#   N  cal.weighting = <case weighting>           (the public attribute assigned directly; built-in names only)
+#   f  cal.update_linreg()                        (an extra refit in between, or twice at the end)
+# A history is legal for a case when every step is a legal use of the public interface at the time it is taken and the
+# object holds the case's points and weighting at the end.
+FINAL_LETTERS = "pwPWNf"
+
+
+class _HState:
+    """what a Calibration object holds, as far as the legality of the next step depends on it"""
+
+    def __init__(self):
+        self.rows = self.w = self.cw = None
+
+    def set_points(self, r):
+        if any(len(x) != 2 for x in r):
+            return False
+        self.rows = r
+        return True
+
+    def set_weights(self, w, c):
+        if c is None and w not in BUILTIN:
+            return False
+        if c is not None and (len(c) != len(self.rows) or w in BUILTIN):
+            return False
+        self.w, self.cw = w, c
+        return True
+
+    def can_fit(self):
+        return self.w in BUILTIN or (self.cw is not None and len(self.cw) == len(self.rows))
+
+    def holds(self, rows, weighting, cw):
+        return self.rows == rows and self.w == weighting and (weighting in BUILTIN or self.cw == cw)
 
 
 def resolve_history(h, rows, weighting, cw):
     """-> (resolved ops, final) or None when the history is not a legal use of the public interface for THIS case
-    (custom vector of another length than the points at the time it is assigned or used, a "p"/"w" ending whose
-    other half does not already hold the case's value, malformed).  Decided here, for any case a shrinker derives."""
+    (custom vector of another length than the points at the time it is assigned or used, an in-place edit of a table of
+    another length, an ending that does not leave the case's points and weighting on the object, malformed).  Decided
+    here, for any case a shrinker derives."""
     try:
         final = h["final"]
-        if final not in FINALS or not h["ops"] or h["ops"][0]["op"] != "new":
+        if not isinstance(final, str) or len(final) > 5 or any(ch not in FINAL_LETTERS for ch in final):
             return None
-        st_rows = st_w = st_cw = None
+        if not h["ops"] or h["ops"][0]["op"] != "new":
+            return None
+        st = _HState()
         out = []
         for k, op in enumerate(h["ops"]):
             kind = op["op"]
             if kind == "new" and k > 0:
                 return None
             if kind in ("new", "points"):
-                r = rows if op["rows"] == "case" else op["rows"]
-                if any(len(x) != 2 for x in r):
+                if not st.set_points(rows if op["rows"] == "case" else op["rows"]):
                     return None
-                st_rows = r
             if kind in ("new", "weights"):
                 w, c = (weighting, cw) if op["weighting"] == "case" else (op["weighting"], op["cw"])
-                if c is None and w not in BUILTIN:
+                if not st.set_weights(w, c):
                     return None
-                if c is not None and (len(c) != len(st_rows) or w in BUILTIN):
-                    return None
-                st_w, st_cw = w, c
             if kind == "new":
-                out.append(("new", st_rows, st_w, st_cw, bool(op["fit"])))
+                out.append(("new", st.rows, st.w, st.cw, bool(op["fit"])))
             elif kind == "points":
-                out.append(("points", st_rows))
+                out.append(("points", st.rows))
             elif kind == "weights":
-                out.append(("weights", st_w, st_cw))
+                out.append(("weights", st.w, st.cw))
             elif kind == "fit":
-                if st_cw is not None and len(st_cw) != len(st_rows):
+                if not st.can_fit():
                     return None
                 out.append(("fit",))
+            elif kind == "roundtrip":
+                pad = op["pad"]
+                # rows that are NaN in both cells may be dropped by from_array (with their weights): not produced here
+                if not st.can_fit() or any(r[0] is None and r[1] is None for r in st.rows) or \
+                        not (pad is None or (isinstance(pad, int) and 0 <= pad <= 8)):
+                    return None
+                if st.w in BUILTIN:
+                    st.cw = None  # from_array hands a built-in weighting over by its name
+                out.append(("roundtrip", pad))
             else:
                 return None
-        if final == "wp" and cw is not None and len(cw) != len(st_rows):
-            return None
-        if final == "p" and not (st_w == weighting and st_cw == cw):
-            return None
-        if final == "w" and st_rows != rows:
+        for ch in final:
+            if ch == "p":
+                st.set_points(rows)
+            elif ch == "P":
+                if len(st.rows) != len(rows):
+                    return None
+                st.rows = rows
+            elif ch == "w":
+                if not st.set_weights(weighting, cw):
+                    return None
+            elif ch == "W":
+                if cw is None or st.w != weighting or st.w in BUILTIN or st.cw is None or len(st.cw) != len(cw):
+                    return None
+                st.cw = cw
+            elif ch == "N":
+                if weighting not in BUILTIN:
+                    return None
+                st.w = weighting
+            elif not st.can_fit():  # "f"
+                return None
+        if not st.holds(rows, weighting, cw) or not st.can_fit():
             return None
         return out, final
     except (KeyError, TypeError, IndexError):
@@ -279,8 +335,18 @@ def resolve_history(h, rows, weighting, cw):
 
 
 def history_features(ops, final, rows, weighting, cw):
-    f = {"hist-final:" + {"pw": "points-then-weights", "wp": "weights-then-points", "p": "points-only",
-                          "w": "weights-only"}[final]}
+    names = {"pw": "points-then-weights", "wp": "weights-then-points", "p": "points-only", "w": "weights-only", "": "nothing"}
+    f = {"hist-final:" + names.get(final, final)}
+    if "P" in final:
+        f.add("hist:points-edited-in-place")
+    if "W" in final:
+        f.add("hist:custom-weights-edited-in-place")
+    if "N" in final:
+        f.add("hist:weighting-attribute-assigned")
+    if "f" in final:
+        f.add("hist:extra-refit")
+    if any(o[0] == "roundtrip" for o in ops):
+        f.add("hist:to_array/from_array-round-trip" + ("(padded)" if any(o[0] == "roundtrip" and o[1] for o in ops) else ""))
     new = ops[0]
     if new[3] is not None:
         same = len(new[3]) == len(rows)
@@ -293,7 +359,7 @@ def history_features(ops, final, rows, weighting, cw):
         f.add("hist:prior-other-points")
     f.add("hist:prior-fitted" if new[4] else "hist:prior-constructed")
     seq = [new[3] is not None] + [o[2] is not None for o in ops[1:] if o[0] == "weights"]
-    if final != "p":
+    if "w" in final or "W" in final:
         seq.append(cw is not None)
     seq = [k for k, _ in itertools.groupby(seq)]
     for i in range(len(seq) - 2):
@@ -325,6 +391,9 @@ def run_history(ops, final, rows, weighting, cw):
                         cal.points = np_points(op[1])
                     elif op[0] == "weights":
                         cal.weights = np_weights(op[1], op[2])
+                    elif op[0] == "roundtrip":
+                        n = cal.points.shape[0]
+                        cal = Calibration.from_array(cal.to_array(None if op[1] is None else n + op[1]))
                     else:
                         cal.update_linreg()
             except Exception:
@@ -333,8 +402,16 @@ def run_history(ops, final, rows, weighting, cw):
                 for step in final:
                     if step == "p":
                         cal.points = np_points(rows)
-                    else:
+                    elif step == "P":
+                        cal.points[...] = np_points(rows)
+                    elif step == "w":
                         cal.weights = np_weights(weighting, cw)
+                    elif step == "W":
+                        cal.weights[...] = np.array([nan(v) for v in cw], dtype=np.float64)
+                    elif step == "N":
+                        cal.weighting = weighting
+                    else:
+                        cal.update_linreg()
                 cal.update_linreg()
                 return observe(cal)
             except Exception as e:
@@ -416,6 +493,27 @@ def make_histories(rng, rows, weighting, cw):
         if rng.random() < 0.5:
             ops.append({"op": "fit"})
     hs.append({"ops": ops, "final": rng.choice((["w"] if ops[0]["rows"] == "case" else []) + ["pw", "wp"])})
+    # (e) the points table edited in place (cal.points[...] = ...): other points of the same length under the case's
+    #     weighting, or under another one (then the weighting is assigned before or after the edit)
+    pr = prior_rows(rng, n)
+    if cw is not None:
+        pr = [[r[0], None] if cw[i] is None else r for i, r in enumerate(pr)]
+    hs.append({"ops": [new(pr, "case")], "final": rng.choice(["P", "P", "Pf"])})
+    hs.append({"ops": [new(prior_rows(rng, n), other_b())], "final": rng.choice(["Pw", "wP"] if cw is None else ["Pw"])})
+    if cw is not None:
+        # (f) the custom vector edited in place under the same name
+        hs.append({"ops": [new("case", weighting, prior_cw(rng, n))], "final": rng.choice(["W", "W", "fW"])})
+    else:
+        # (g) the public attribute `weighting` assigned directly, after another built-in and after a custom vector
+        hs.append({"ops": [new("case", other_b())], "final": rng.choice(["N", "fN", "pN", "Np"])})
+        hs.append({"ops": [new("case", "Custom", prior_cw(rng, n))], "final": rng.choice(["N", "fN"])})
+    # (h) an extra refit between the two assignments (legal when the object is consistent in between) / twice at the end
+    hs.append({"ops": [new(prior_rows(rng, rng.choice([n, other_n()])), other_b())], "final": rng.choice(["pfw", "pwf", "wfp"] if cw is None else ["pfw", "pwf"])})
+    # (i) an object that came back from to_array / from_array (as stored in a laser file): refitted as it is, and given
+    #     the case's points and weighting
+    hs.append({"ops": [new("case", "case", cw, fit=rng.random() < 0.7), {"op": "roundtrip", "pad": rng.choice([None, 0, 1, 3])}], "final": ""})
+    hs.append({"ops": [new(prior_rows(rng, rng.choice([n, other_n()])), rng.choice(BUILTIN)),
+                       {"op": "roundtrip", "pad": rng.choice([None, 2])}], "final": rng.choice(["pw", "wp"] if cw is None else ["pw"])})
     return hs
 
 
@@ -727,8 +825,23 @@ class C06(Prop):
             "same-unit ladder; a 7x8 grid of them on every run); sessions (6%): one object, 2..4 operations that set its "
             "line (attributes assigned: any line / next to the identity / the identity; refitted on an ordinary ladder, a "
             "same-unit ladder, fewer than two usable rows, no rows) with calibrate called before, between (once or twice) "
-            "and after. non-trivial = carries a NaN row, a zero level, a permutation, custom weights, a history, a "
-            "non-1-D array, a line at or next to the identity, or is a session; distinct by canonical case hash")
+            "and after; 35% of the sessions calibrate one image of some dtype / layout at every call. Ladders are written in "
+            "units from 1e-12 to 1e12 (a quarter of the fit cases beyond 1e-3..1e3), responses from 1e-9 to 1e12; levels that "
+            "differ by 1e-3..1e-9 of their mean; exactly two levels with up to 12 replicates; 12% tables of whole numbers. "
+            "Every fit case is also handed over as two or three other kinds of table (nested lists / tuples of Python "
+            "floats and ints, integer arrays i1..u8 of either byte order where the values are whole numbers, binary32 where "
+            "exact, big-endian, Fortran-ordered, strided, reversed, read-only), and through 16-17 histories incl. the points "
+            "or the custom vector edited in place, the public attribute `weighting` assigned directly, extra refits in "
+            "between and at the end, and an object that came back from to_array / from_array. Data cases (10%): calibrate on "
+            "arrays of every image dtype (i1 i2 i4 i8 u1 u2 u4 u8 f4 f8), either byte order, 0..3 dimensions incl. empty, "
+            "nine memory layouts (C, Fortran, every other element, reversed, transposed, field of a packed structured array, "
+            "read-only, unaligned offset, NumPy scalar), elements given directly (raw counts up to the dtype's limits, "
+            "responses between the blank and twice the top standard, NaN for the float dtypes) under the identity, lines "
+            "given as float / np.float64 / int, fitted lines (ladders measured in counts), lines next to the identity; a "
+            "deterministic grid dtype x byte order x {identity, float line, np.float64 line, fitted, fewer than two points} "
+            "on every run. non-trivial = carries a NaN row, a zero level, a permutation, custom weights, a history, a "
+            "non-1-D array, a line at or next to the identity, a data array of a given dtype, or is a session; distinct by "
+            "canonical case hash")
     trusted = [
         "np.polynomial.polynomial.polyfit(x, y, 1, w=sqrt(w)) returns the minimiser of the weighted residual sum of a "
         "full-rank system and np.cov(aweights=w) the weighted covariance matrix; the correspondence measures both "
@@ -737,6 +850,11 @@ class C06(Prop):
         "rho < 1e-6 or with that bound above 1e-5 are undetermined (counted, never a verdict)",
         "float evaluation of 1/x, 1/x**2 and of (data - intercept)/gradient is within 1e-15 relative of the exact value "
         "(plus one rounding of 2^-1074 in the subnormal range)",
+        "a data array holds each response exactly (integers of any width, binary32, binary64); its concentration is "
+        "(r - c)/g over Rat (`specCalibrate`, `calibrate_eq_iff_on_line`).  pewlib's result is compared at the precision of "
+        "the type NumPy computes in on the unchanged tree: binary64 for integer and binary64 data under any line, "
+        "binary32 for binary32 data (NumPy keeps binary32 under a Python-float line): 4 eps (|x| + |c/g|) + one subnormal "
+        "rounding; binary32 cases with any of |g|, |c|, |r|, |x| above 1e30 or |g| below 1e-30 are undetermined",
         "in a session a refit on two or more usable rows stores polyfit's line: the line observed on the object is "
         "adopted as the model's state for the following calibrate calls (the fit itself is judged by the fit cases); "
         "assigned lines and the identity after fewer than two usable rows are compared exactly",
@@ -748,6 +866,16 @@ class C06(Prop):
         "[[0, 0.0233], [1000, 8832044]] with 1/(y^2): weights 1839.7 and 1.28e-14, rsq = NaN, exact value 1)",
         "point sets whose usable rows do not have two distinct concentrations, or whose weights are not all positive, "
         "are outside the property's hypothesis; only the weights and 'does not change' are not demanded there",
+        "'an identity calibration returns data unchanged' is demanded value for value (NaN for NaN, zeros with their "
+        "sign, integers as integers or as the equal float); the dtype of the returned array and whether it is the same "
+        "object are recorded (`result-dtype:*`), never compared: the text speaks of the data",
+        "a line whose gradient or intercept is a Python int, applied to an integer array, is subtracted by NumPy in the "
+        "array's own integer type (wraps around below the blank for unsigned counts, OverflowError for an intercept "
+        "outside the dtype's range).  Lines out of a fit are np.float64 and the constructor's parameters are typed float: "
+        "outside the quantifier, such cases are recorded (`int-line-on-int-data:...(recorded only)`), not judged, when "
+        "a difference r - c leaves the dtype's range (notes/EC06.md)",
+        "to_array / from_array are not anchored by the property: an object that came back from them is used as a prior "
+        "state only (a round trip that fails or drops rows is a prefix that is not judged)",
         "`error` is not part of the property statement; it is compared (under impl-vs-model) with the mechanism's value and "
         "with its own specification - the residual variance about the textbook line written with raw sums "
         "(`specErr2`, equal to the mechanism by `err2_is_residual_variance`)",
@@ -1175,6 +1303,8 @@ class C06(Prop):
             c = self.gen_fit(rng, "thorough")
             if any(is_nan_row(r) for r in c["rows"]):
                 yield c
+        for i in range(300):
+            yield self.gen_cal_data(rng, "thorough")
 
     # ------------------------------------------------------------------ evaluation
     def evaluate(self, case, ctx):
